@@ -482,6 +482,12 @@ def worker_streams(run, thorough):
                 cd2["part"] = i
                 run.report("correspondence", cd2, {"impl": a.head[:300], "trace": ",".join(a.ev)[:1500]},
                            broken="C08_multi / C08_part hypotheses vs threading.rs compress_part: " + bad, found_input=False)
+    if stats["calls_not_run"]:
+        # a harness process that died or hung is never an agreement
+        run.report("proof-obligation", {"stage": "worker streams", "requests_not_run": stats["calls_not_run"]},
+                   {"first": next((a.head[:300] for a in answers if a.notrun or a.kind in ("TOOL", "NORETURN", "?")), "")},
+                   broken="%d CompressMulti requests of the worker-stream group did not come back from the harness (process died, hung or "
+                          "unreadable answer); the hypotheses of C08_multi are not validated on them" % stats["calls_not_run"], found_input=False)
     run.cov["worker_streams"] = stats
     run.note("worker streams: %s" % json.dumps(stats))
 
